@@ -218,6 +218,19 @@ def popInfo (sc : Script) : InfoV × Script :=
   | v :: rest => (v, { sc with infos := rest })
   | [] => (.echo, sc)
 
+/-- the body of the `applyChunks` loop for one chunk handed out by `Next`: the ABCI call, the
+arrivals during it, then `RefetchChunks` and `RejectSenders`; the verdict decides how the loop
+goes on -/
+def applyOne (c : Chunk) (sy : Sy) (sc : Script) : ApplyRes × Sy × Script :=
+  let (v, sc) := popApply sc
+  let sy := log sy (.apply c.index (c.body.getD []) c.sender v.result v.refetch v.rejectSenders)
+  let sy := deliverAll recent sy v.pre
+  if v.result = .error then (.error, sy, sc)
+  else
+    let (sy, sc) := doRefetch recent v.refetch sy sc
+    let (sy, sc) := doRejectSenders recent v.rejectSenders sy sc
+    (v.result, sy, sc)
+
 /-- `applyChunks` -/
 def applyChunks (snap : Snapshot) : Nat → Sy → Script → Except SyncErr Unit × Sy × Script
   | 0, sy, sc => (.error .other, sy, sc)
@@ -232,22 +245,14 @@ def applyChunks (snap : Snapshot) : Nat → Sy → Script → Except SyncErr Uni
         let (sy1, sc1, ok) := starve recent snap i (sc.late.length + 2) sy sc
         if ok then applyChunks snap fuel sy1 sc1 else (.error .timeout, sy1, sc1)
       | .chunk c q' =>
-        let sy := { sy with queue := some q' }
-        let (v, sc) := popApply sc
-        let sy := log sy (.apply c.index (c.body.getD []) c.sender v.result v.refetch v.rejectSenders)
-        let sy := deliverAll recent sy v.pre
-        if v.result = .error then (.error .other, sy, sc)
-        else
-          let (sy, sc) := doRefetch recent v.refetch sy sc
-          let (sy, sc) := doRejectSenders recent v.rejectSenders sy sc
-          match v.result with
-          | .accept => applyChunks snap fuel sy sc
-          | .abort => (.error .abort, sy, sc)
-          | .retry => applyChunks snap fuel { sy with queue := sy.queue.map (·.retry c.index) } sc
-          | .retrySnapshot => (.error .retrySnapshot, sy, sc)
-          | .rejectSnapshot => (.error .rejectSnapshot, sy, sc)
-          | .unknown => (.error .other, sy, sc)
-          | .error => (.error .other, sy, sc)
+        match applyOne recent c { sy with queue := some q' } sc with
+        | (.accept, sy, sc) => applyChunks snap fuel sy sc
+        | (.abort, sy, sc) => (.error .abort, sy, sc)
+        | (.retry, sy, sc) => applyChunks snap fuel { sy with queue := sy.queue.map (·.retry c.index) } sc
+        | (.retrySnapshot, sy, sc) => (.error .retrySnapshot, sy, sc)
+        | (.rejectSnapshot, sy, sc) => (.error .rejectSnapshot, sy, sc)
+        | (.unknown, sy, sc) => (.error .other, sy, sc)
+        | (.error, sy, sc) => (.error .other, sy, sc)
 
 def provErr {α : Type} : ProvRes α → SyncErr
   | .noWitness => .noWitness
